@@ -1,5 +1,6 @@
 import L21.Proofs.GdsBytes
 import L21.Props.C01
+import L21.Props.C01L
 import L21.Props.C15
 #print axioms L21.Gds.c01_reader_accepts_writer_rows
 #print axioms L21.Gds.c01_read_table_unambiguous
@@ -11,3 +12,5 @@ import L21.Props.C15
 #print axioms L21.Gds.c01_tree_roundtrip
 #print axioms L21.Gds.c01_roundtrip
 #print axioms L21.Gds.readRecord_encRecord
+#print axioms L21.Gds.c01_lazy_reader_is_model
+#print axioms L21.Gds.c01_roundtrip_lazy
